@@ -119,10 +119,12 @@ class _AmbiguousView:
 
     def add(self, name):
         if name in self.m.roots:
-            self.m._ambiguous_roots.add(id(self.m.roots[name]))
+            # ... and so do the circuits a live-nested circuit sits in
+            for node in self.m.chain_of(self.m.roots[name]):
+                self.m._ambiguous_roots.add(id(node))
 
     def __contains__(self, name):
-        return name in self.m.roots and id(self.m.roots[name]) in self.m._ambiguous_roots
+        return name in self.m.roots and any(id(n) in self.m._ambiguous_roots for n in self.m.chain_of(self.m.roots[name]))
 
 
 class Model:
@@ -137,6 +139,8 @@ class Model:
         self._sid = 0
         self.notes = []        # placement verdicts etc.
         self.by_sid = {}       # registry target id -> sub-circuit node
+        self.live_parent = {}  # id(live-nested circuit) -> the circuit it sits in
+        self.consumed = set()  # handle names of live-nested circuits
         self._ambiguous_roots = set()   # structures whose relation structure can no longer be followed exactly
         self.ambiguous = _AmbiguousView(self)
 
@@ -163,6 +167,33 @@ class Model:
         if r[0] == "fixed":
             return r[1]
         return self.rregs.get(r[1], {}).get(r[2], 1)
+
+    def chain_of(self, node):
+        """The circuit and every circuit it is live-nested in (innermost first)."""
+        out = [node]
+        while id(out[-1]) in self.live_parent:
+            out.append(self.live_parent[id(out[-1])])
+        return out
+
+    def top_of(self, node):
+        return self.chain_of(node)[-1]
+
+    def holds_live(self, node):
+        """True iff a live-nested circuit sits somewhere below `node`."""
+        return any(id(b) in self.live_parent for b in self.blocks_below(node, False))
+
+    def inherited_ok(self, blocks, impl):
+        """An operation that is first on its channels in its block has no relation of its own; if the block (or the
+        nearest related block around it) is related to something, the operation is handed that relation
+        (it starts with the block). `blocks`: the block and the blocks around it, innermost first."""
+        for b in blocks:
+            if b.rel is not None:
+                if b.rel[0] == "MULTI":
+                    return True
+                if impl.get("rt") != b.rel[0]:
+                    return False
+                return b.rel[1].key is None or b.rel[1].key == impl.get("ref_key")
+        return False
 
     def new_sid(self, node=None):
         self._sid += 1
@@ -301,7 +332,7 @@ class Model:
             if root.rel_known:
                 sharing, adm = self.admissible(root, n.ch)
                 if not sharing:
-                    if impl.get("ref_key") is not None and impl.get("checked", True):
+                    if impl.get("ref_key") is not None and impl.get("checked", True) and not self.inherited_ok(self.chain_of(root)[:-1], impl):
                         verdict = {"ok": False, "why": "first on its channels but linked to an operation",
                                    "got": [impl["rt"], impl.get("ref_label")]}
                     n.rel = None
@@ -358,7 +389,7 @@ class Model:
         if block.rel_known:
             sharing, adm = self.admissible(block, n.ch)
             if not sharing:
-                if impl.get("ref_key") is not None and impl.get("checked", True):
+                if impl.get("ref_key") is not None and impl.get("checked", True) and not self.inherited_ok([block] + self.chain_of(root)[:-1], impl):
                     verdict = {"ok": False, "why": "first on its channels in the nested block but linked to an operation", "got": [impl["rt"], impl.get("ref_label")]}
                 n.rel = None
             else:
@@ -521,6 +552,10 @@ class Model:
             verdict["adm"] = adm
         root.members.append(c)
         self.entries[name].append(c)
+        self.live_parent[id(c)] = root
+        for h, r in self.roots.items():
+            if r is c:
+                self.consumed.add(h)
         return c, verdict
 
     def settle_live(self, c):
@@ -794,9 +829,10 @@ class Model:
 
         walk(root, None, 0)
         times = None
-        if timed and root.dur_known and self._all_known(root):
+        top = self.top_of(root)   # a live-nested circuit reports the times it has inside the circuit it sits in
+        if timed and root.dur_known and top.dur_known and self._all_known(top):
             try:
-                times = self.leaf_times(root, 0.0)
+                times = self.leaf_times(top, 0.0)
             except ModelError:
                 times = None
 
